@@ -9,3 +9,50 @@ pub fn bad_alter(x: f64) -> Result<f64, String> {
     fesetround(current);
     Ok(r)
 }
+
+/// pair-orientation: seeded positive / negative
+#[derive(Clone, PartialEq, PartialOrd)]
+pub struct Iv {
+    pub lower: i64,
+    pub upper: i64,
+}
+impl Iv {
+    #[inline(never)]
+    pub fn new(lower: i64, upper: i64) -> Iv {
+        Iv { lower, upper }
+    }
+}
+/// left >= right: returns (new left, new right)
+pub fn satisfy_ge(left: &Iv, right: &Iv) -> Option<(Iv, Iv)> {
+    if left.upper < right.lower {
+        return None;
+    }
+    let new_left_lower = if left.lower <= right.lower { right.lower } else { left.lower };
+    let new_right_upper = if left.upper <= right.upper { left.upper } else { right.upper };
+    Some((Iv::new(new_left_lower, left.upper), Iv::new(right.lower, new_right_upper)))
+}
+fn reverse_tuple<T, U>(t: (T, U)) -> (U, T) {
+    (t.1, t.0)
+}
+/// correct: the result is reversed exactly when the operands were passed reversed
+pub fn propagate_good(ge: bool, truth: bool, left: &Iv, right: &Iv) -> Option<(Iv, Iv)> {
+    if ge == truth {
+        satisfy_ge(left, right)
+    } else {
+        satisfy_ge(right, left).map(reverse_tuple)
+    }
+}
+/// seeded: the negated branch forgets to reverse
+pub fn propagate_bad(ge: bool, truth: bool, left: &Iv, right: &Iv) -> Option<(Iv, Iv)> {
+    if truth {
+        if ge {
+            satisfy_ge(left, right)
+        } else {
+            satisfy_ge(right, left).map(reverse_tuple)
+        }
+    } else if ge {
+        satisfy_ge(right, left)
+    } else {
+        satisfy_ge(left, right).map(reverse_tuple)
+    }
+}
